@@ -2455,6 +2455,10 @@ func (r *stack) pop() (slice any, ok bool) {
 	r.lock()
 	defer r.unlock()
 
+	if r.ulen() == 0 {
+		return
+	}
+
 	var idx int
 
 	if r.isFIFO() {
